@@ -357,4 +357,22 @@ def lineD (per : Bool) (order : Nat) (h : Rat) (L : Nat) (g : Nat → Rat) (i : 
      else (g ((i + 1) % L) - 2 * g (i % L) + g ((i + L - 1) % L)) / (h * h))
   else C04.dAt order h L g i
 
+/-- well-formed axis names: as many as axes, pairwise different (Region invariant) -/
+def DimsOk (f : Fld) : Prop :=
+  f.mesh.region.dims.length = f.mesh.ndim ∧ hasDup f.mesh.region.dims = false
+
+/-- a "plain" scalar field: one component, no label, no mapping (what `Field(mesh, nvdim=1)`,
+`getattr(f, label)`, `diff`, `+`, `-` of such fields produce) -/
+def Plain (f : Fld) : Prop := f.nvdim = 1 ∧ f.vdims = none ∧ f.vmap = []
+
+/-- positional labels and mapping of an `n`-component result built by `<<` from plain scalars -/
+def posVdims (n : Nat) : Option (List String) := Fld.defaultVdims n
+
+def posVmap (m : Mesh) (n : Nat) : List (String × String) :=
+  if n = 1 then [] else if n = m.region.ndim then
+    match Fld.defaultVdims n with
+    | some vs => List.zip vs m.region.dims
+    | none => []
+  else []
+
 end DFV.C05
